@@ -59,14 +59,14 @@ def apply_fault(f, root, q, apath, rows, ids):
         if kind == "stale_staging_contaminate":
             # a killed restore of another archive of the same version left different content behind
             st = os.path.join(q, au.OUT, au.STAGING)
-            shutil.copytree(au.unpack(apath), st, symlinks=True)
+            shutil.copytree(au.unpack(apath), st, symlinks=True, dirs_exist_ok=True)
             k = pick(keys, f["pick"])
             with open(os.path.join(st, au.vdir_rel(*k), "stale-extra.txt"), "w") as fh:
                 fh.write("from the killed restore")
             note = k
         if kind == "stale_staging":
             st = os.path.join(q, au.OUT, au.STAGING)
-            shutil.copytree(au.unpack(apath), st, symlinks=True)
+            shutil.copytree(au.unpack(apath), st, symlinks=True, dirs_exist_ok=True)
             with open(os.path.join(st, "junk"), "w") as fh:
                 fh.write("left by a killed restore")
             conn = sqlite3.connect(os.path.join(st, au.AINDEX))
@@ -140,7 +140,7 @@ def apply_fault(f, root, q, apath, rows, ids):
             os.unlink(ip)
             if kind == "stale_staging_drop_index":
                 st = os.path.join(q, au.OUT, au.STAGING)
-                shutil.copytree(au.unpack(apath), st, symlinks=True)
+                shutil.copytree(au.unpack(apath), st, symlinks=True, dirs_exist_ok=True)
         elif kind == "bad_format":
             conn = sqlite3.connect(ip)
             conn.execute("PRAGMA user_version = 7")
@@ -393,6 +393,9 @@ def run(tier, seed, replay=None):
     setup_impl_path()
     new_dir("warm")
 
+    if replay is not None and (replay.get("input") or {}).get("part") == "staging-collision":
+        au.staging_collision(chk, "C12")
+        return chk.finish()
     if replay is not None and (replay.get("input") or {}).get("kind") == "fault":
         jobs = [replay["input"]["job"]]
     elif replay is not None:
@@ -400,6 +403,7 @@ def run(tier, seed, replay=None):
         return chk.finish()
     else:
         durability_assumption(chk)
+        au.staging_collision(chk, "C12")     # D23: restore vs. a package named like its staging directory
         jobs = []
         # corpus: every fault once on a fixed-shape project, then random subsets
         jobs.append(gen_job(au.sub_rng(chk.rng), faults=FAULTS[:8], sweep={"mode": "sample", "n": 14, "target": "clean"}))
